@@ -33,6 +33,8 @@ def scale_write(tier):
         dict(name="W_bigobj", params=dict(C=0x20000, RP=0, LEVEL=0), items=[can(1), ["apptext", 2, 0x50000], can(3)]),
         # incompressible payload, several full containers, zlib: the compressor must not die on its output bound
         dict(name="W_random", params=dict(C=0x20000, RP=1, LEVEL=1), items=[["apptextr", i, 100000] for i in range(1, 7)]),
+        # level and restore points configured between open() and the first write(): same file for every schedule
+        dict(name="W_late", params=dict(C=4096, RP=1, LEVEL=6, LATE=1), items=[can(i) for i in range(1, 301)]),
     ]
     if tier == "thorough":
         g += [
